@@ -5,7 +5,10 @@ import tr_jit
 
 
 def run(v, tier, seed, g):
-    restore = tr_jit.generate()
+    try:
+        restore = tr_jit.generate()
+    except tr_jit.TranslationError:
+        restore = True      # the gate has recorded the failed translation; the schedules below are the search for a failing input
     n = 160 if tier == "quick" else 4000
     specs = jitconf.schedules(seed, n // 2, faults=True, kills=True, nreq=(2, 5))
     specs += jitconf.schedules(seed + 1, n // 2, faults=True, kills=False, nreq=(3, 6))
